@@ -197,6 +197,14 @@ class SeqNum(int):
         else:
             raise TypeError(str(other))
 
+    def __le__(self, other) -> bool:
+        # (without these <= and >= would be the plain integer comparisons,
+        # which disagree with < and > across the wrap)
+        return not self.__gt__(other)
+
+    def __ge__(self, other) -> bool:
+        return not self.__lt__(other)
+
 class BitField(object):
     """ The bitfield keeps track of recently received messages.
     It uses a one hot encoding to indicate received SeqNum using
